@@ -1038,7 +1038,7 @@ def mapcache_part(ck, tier):
             ck.case(("cache", os.path.basename(src), json.dumps(r["hist"])), len(r["hist"]) >= 2)
         ck.validated(len(recs))
     ck.cov["cache_replay"] = dict(tot, load_decisions=why)
-    if tot["hits"] == 0 or tot["parses"] == 0:
+    if (tot["hits"] == 0 or tot["parses"] == 0) and not ck.violations:
         raise MachineryError("cache replay saw no hit or no parse: observation is broken")
     for r in records:
         if len(r["hist"]) == 3 and r["last"]["outcome"] == "hit":
